@@ -63,6 +63,11 @@ type Subject struct {
 	SigCoords []Scalar
 	PKCoords  []Scalar
 
+	// DecodePKInto (optional): decode an encoded public key into an EXISTING key object (UnmarshalBinary on the
+	// object). Used for the reuse history "the public-key object that key generation returned is later used as a
+	// decode target for another key; the private key must still produce signatures that verify under its true key".
+	DecodePKInto func(pk interface{}, b []byte) error
+
 	// WrapSign (optional, subjects with contexts): an independent reference signer that accepts a context of
 	// any length and hashes its length octet modulo 256 - the only signature an over-long context could ever
 	// "have". It is bound to the real code on every base case (must reproduce the honest signature bytes).
@@ -71,6 +76,18 @@ type Subject struct {
 
 // LongCtxLens are the over-long context lengths offered with related signatures.
 var LongCtxLens = []int{256, 257, 511, 512}
+
+// CtxNeighbourLens are the legal context lengths whose neighbours are crossed.
+var CtxNeighbourLens = []int{0, 1, 2, 127, 128, 245, 246, 247, 248, 254, 255}
+
+// NeighbourCtx is the fixed context of n bytes used by the neighbour family.
+func NeighbourCtx(n int) string {
+	b := make([]byte, n)
+	for i := range b {
+		b[i] = byte(11*i + 5)
+	}
+	return string(b)
+}
 
 // LongCtx is the fixed over-long context of n bytes.
 func LongCtx(n int) string {
@@ -365,11 +382,16 @@ func (x *runner) base(seeds [][]byte, si, ml, ci, bi int) {
 	// with k = L mod 256 where the message directly follows the context (ML-DSA), and like the signature of a signer
 	// that wrapped the octet (EdDSA, where R||A sit in between). Variants of a truncating / saturating verifier too.
 	if len(s.Contexts) > 0 {
+		wrapBound := false
 		if s.WrapSign != nil {
 			var ws []byte
-			if pn, what := verifmc.Try(func() { ws = s.WrapSign(seed, msg, ctx) }); pn || !bytes.Equal(ws, sig) {
-				r.Vacuous(fmt.Sprintf("%s: the reference signer does not reproduce the honest signature of %s (%s)", s.Name, base, what))
+			if pn, _ := verifmc.Try(func() { ws = s.WrapSign(seed, msg, ctx) }); pn || !bytes.Equal(ws, sig) {
+				// Byte equality with RFC 8032 is C05's subject, not C02's: without a bound reference signer only the
+				// family that needs it is dropped for this base case (a capped sub-alphabet), everything else runs.
+				r.Count("wrapsign_not_bound", 1)
+				r.Cap(fmt.Sprintf("%s: the reference signer does not reproduce the library's honest signature on some base case; family longctx-wrapsigned skipped there", s.Name))
 			} else {
+				wrapBound = true
 				r.Count("wrapsign_bound_to_real_signer", 1)
 			}
 		}
@@ -401,11 +423,85 @@ func (x *runner) base(seeds [][]byte, si, ml, ci, bi int) {
 				}
 				x.eval(base, seed, kp, alt{class: "longctx-related", name: fmt.Sprintf("len%d-%s", L, v.name), msg: msg, sig: sg, ctx: C})
 			}
-			if s.WrapSign != nil {
+			if wrapBound {
 				var ws []byte
 				if pn, _ := verifmc.Try(func() { ws = s.WrapSign(seed, msg, C) }); !pn && ws != nil {
 					x.eval(base, seed, kp, alt{class: "longctx-wrapsigned", name: fmt.Sprintf("len%d", L), msg: msg, sig: ws, ctx: C})
 				}
+			}
+		}
+	}
+
+	// context neighbours: for legal contexts of the boundary lengths, a signature made under c must fail under every
+	// context that differs from c only in its last byte, only in its first byte, or by dropping / adding the last byte
+	// (catches a context that is cut, padded or only partly absorbed, consistently by signer and verifier)
+	if len(s.Contexts) > 0 {
+		for _, n := range CtxNeighbourLens {
+			c := NeighbourCtx(n)
+			sg, refused, crash := x.signTry(kp.sk, msg, c)
+			if crash != "" || refused || sg == nil {
+				r.Count("ctx_neighbour_base_not_signable", 1) // the empty context for Ed25519ctx
+				continue
+			}
+			okc := false
+			pn, what := verifmc.Try(func() { okc = s.Verify(kp.pk, msg, sg, c) })
+			r.Eval(1)
+			if pn || !okc {
+				x.viol("honest", "rejected", fmt.Sprintf("%sctxlen%d", hid, n), fmt.Sprintf("%s: honest signature under a %d-byte context rejected %s", base, n, what), nil, seed)
+				continue
+			}
+			r.Count("honest_verified", 1)
+			type nb struct{ name, ctx string }
+			var nbs []nb
+			if n > 0 {
+				b := []byte(c)
+				b[n-1] ^= 0x01
+				nbs = append(nbs, nb{"last-byte", string(b)})
+				b = []byte(c)
+				b[0] ^= 0x80
+				nbs = append(nbs, nb{"first-byte", string(b)}, nb{"drop-last", c[:n-1]})
+			}
+			nbs = append(nbs, nb{"add-byte", c + "\x5a"})
+			for _, v := range nbs {
+				x.eval(base, seed, kp, alt{class: "ctx-neighbour", name: fmt.Sprintf("len%d-%s", n, v.name), msg: msg, sig: sg, ctx: v.ctx})
+			}
+		}
+	}
+
+	// reuse history: the public-key object that key generation handed out becomes the decode target of ANOTHER key;
+	// the private key generated with it must keep signing for its true public key (same bytes, still verifies)
+	if s.DecodePKInto != nil {
+		id := base + "history:pk-object-reused-as-decode-target"
+		if r.Want(id) {
+			other := x.keys[(si+1)%len(x.keys)].enc
+			var sg []byte
+			var derr error
+			okh := false
+			pn, what := verifmc.Try(func() {
+				pkA, skA := s.Derive(seed)
+				derr = s.DecodePKInto(pkA, other)
+				if derr != nil {
+					return
+				}
+				var e2 error
+				sg, e2 = s.Sign(skA, msg, ctx)
+				if e2 != nil {
+					return
+				}
+				okh = s.Verify(kp.pk, msg, sg, ctx)
+			})
+			r.Eval(3)
+			r.Distinct(s.Name, id)
+			r.Count("history_pk_reuse", 1)
+			switch {
+			case pn:
+				x.viol("history-pk-reuse", "panic:"+verifmc.PanicClass(what), id, id+": panicked: "+what, nil, seed)
+			case derr != nil:
+				x.viol("history-pk-reuse", "decode-failed", id, fmt.Sprintf("%s: decoding a valid key into the generated key object failed: %v", id, derr), nil, seed)
+			case !okh:
+				x.viol("history-pk-reuse", "rejected", id, id+": after the public-key object from key generation was reused to decode another key, the private key's signature no longer verifies under its true public key", nil, seed)
+			case s.Deterministic && !bytes.Equal(sg, sig):
+				x.viol("history-pk-reuse", "signature-changed", id, id+": after the public-key object from key generation was reused to decode another key, the private key signs different bytes", nil, seed)
 			}
 		}
 	}
